@@ -9,6 +9,7 @@ import (
 	"errors"
 	"fmt"
 	"os"
+	"os/exec"
 	"path/filepath"
 	"sort"
 	"strings"
@@ -36,6 +37,11 @@ func c17Gen(seed uint64, run int, tier string) *Case {
 		c.Cfg["nops"] = int64(r.Range(8, 80))
 	}
 	c.Stratum = fmt.Sprintf("dotu=%d", c.Cfg["dotu"])
+	if run%4 == 3 {
+		// injected operating-system errors: the mutating request of a step may meet a failing os / syscall call
+		c.Cfg["osrate"] = int64(r.Pick(60, 150, 400))
+		c.Stratum += " os-error"
+	}
 	return c
 }
 
@@ -153,6 +159,52 @@ func c17Exec(x *Ctx) {
 			}
 			return rr
 		}
+		osrate := int(c.cfg("osrate"))
+		var lastFault *rt.OSFired
+		// mut sends the mutating request of a step; only while it is executed may injected OS errors fire (at most one)
+		mut := func(m *Msg) *Recvd {
+			lastFault = nil
+			if osrate == 0 {
+				return call(m)
+			}
+			before := len(x.S.OSLog)
+			x.S.OSRate, x.S.OSMax = osrate, before+1
+			rr := call(m)
+			x.S.OSRate = 0
+			if len(x.S.OSLog) > before {
+				f := x.S.OSLog[before]
+				lastFault = &f
+				x.Fault("os-error-" + f.Name)
+			}
+			return rr
+		}
+		// injected reports whether the step met an injected error; if so the reply must be that error (or the
+		// call it hit was one whose failure the server may ignore) and the twin is left alone
+		injected := func(m *Msg, what string, before map[string]string, strict bool) bool {
+			if lastFault == nil {
+				return false
+			}
+			if m.Type != Rerror {
+				return false // the failing call was not essential to the request: judge the step as usual
+			}
+			if dotu && m.Errno != uint32(lastFault.Errno) {
+				// the injected failure hit a call whose outcome the server may ignore (an existence probe, a close),
+				// and the request then failed for a reason of its own: judge the step as usual
+				return false
+			}
+			if strict {
+				if d := diffSnap(before, snapshotTree(A, false)); d != "" {
+					rule := "t2-error-changed-tree"
+					if strings.HasPrefix(what, "Tcreate(\"") && strings.Contains(d, "len=") && !strings.Contains(d, ": \"\" vs") {
+						// the name was occupied by a file: the create acted as an open with truncation, which cannot be undone
+						rule = "t2-error-truncated-existing"
+					}
+					x.Violate(rule, "%s was answered %s (an %s call failed) but changed the tree: %s", what, m, lastFault.Name, d)
+				}
+			}
+			x.Probe("os-error-answered-with-rerror")
+			return true
+		}
 		walkTo := func(rel string) (uint32, bool) {
 			fidno++
 			names := splitRel(rel)
@@ -211,9 +263,14 @@ func c17Exec(x *Ctx) {
 				}
 				pb := filepath.Join(B, d, name)
 				_, existed := os.Lstat(pb)
-				rr := call(&Msg{Type: Tcreate, Fid: f, Name: name, Perm: perm, Mode: omode})
+				rr := mut(&Msg{Type: Tcreate, Fid: f, Name: name, Perm: perm, Mode: omode})
 				if rr == nil || rr.M == nil {
 					return
+				}
+				if injected(rr.M, what, before, true) {
+					clunk(f)
+					syncTwin(A, B)
+					continue
 				}
 				if rr.M.Type == Rerror {
 					// must correspond to a failing POSIX operation, and leave the tree alone
@@ -271,9 +328,14 @@ func c17Exec(x *Ctx) {
 				if !ok {
 					return
 				}
-				rr := call(&Msg{Type: Tcreate, Fid: f, Name: name, Perm: 0x02000000 | 0o777, Mode: 0, Ext: target})
+				rr := mut(&Msg{Type: Tcreate, Fid: f, Name: name, Perm: 0x02000000 | 0o777, Mode: 0, Ext: target})
 				if rr == nil || rr.M == nil {
 					return
+				}
+				if injected(rr.M, what, before, true) {
+					clunk(f)
+					syncTwin(A, B)
+					continue
 				}
 				eb := os.Symlink(target, filepath.Join(B, d, name))
 				c17Outcome(x, rr.M, eb, what, before, A, B, filepath.Join(d, name), dotu)
@@ -296,9 +358,15 @@ func c17Exec(x *Ctx) {
 				if !ok {
 					return
 				}
-				rr := call(&Msg{Type: Tcreate, Fid: f, Name: name, Perm: 0x01000000 | 0o644, Mode: 0, Ext: fmt.Sprint(sf)})
+				rr := mut(&Msg{Type: Tcreate, Fid: f, Name: name, Perm: 0x01000000 | 0o644, Mode: 0, Ext: fmt.Sprint(sf)})
 				if rr == nil || rr.M == nil {
 					return
+				}
+				if injected(rr.M, what, before, true) {
+					clunk(f)
+					clunk(sf)
+					syncTwin(A, B)
+					continue
 				}
 				eb := os.Link(filepath.Join(B, src), filepath.Join(B, d, name))
 				c17Outcome(x, rr.M, eb, what, before, A, B, filepath.Join(d, name), dotu)
@@ -315,9 +383,14 @@ func c17Exec(x *Ctx) {
 				if !ok {
 					return
 				}
-				rr := call(&Msg{Type: Tcreate, Fid: f, Name: name, Perm: 0x80000000 | perm, Mode: 0})
+				rr := mut(&Msg{Type: Tcreate, Fid: f, Name: name, Perm: 0x80000000 | perm, Mode: 0})
 				if rr == nil || rr.M == nil {
 					return
+				}
+				if injected(rr.M, what, before, true) {
+					clunk(f)
+					syncTwin(A, B)
+					continue
 				}
 				eb := os.Mkdir(filepath.Join(B, d, name), os.FileMode(perm))
 				c17Outcome(x, rr.M, eb, what, before, A, B, filepath.Join(d, name), dotu)
@@ -375,9 +448,13 @@ func c17Exec(x *Ctx) {
 				if !ok {
 					continue // dangling intermediate symlink etc.
 				}
-				rr := call(&Msg{Type: Tremove, Fid: f})
+				rr := mut(&Msg{Type: Tremove, Fid: f})
 				if rr == nil || rr.M == nil {
 					return
+				}
+				if injected(rr.M, what, before, true) {
+					syncTwin(A, B)
+					continue
 				}
 				eb := os.Remove(filepath.Join(B, tgt))
 				c17Outcome(x, rr.M, eb, what, before, A, B, tgt, dotu)
@@ -403,9 +480,14 @@ func c17Exec(x *Ctx) {
 				if !ok {
 					continue
 				}
-				rr := call(&Msg{Type: Twstat, Fid: f, Stat: nullStat(func(s *Stat) { s.Name = nn })})
+				rr := mut(&Msg{Type: Twstat, Fid: f, Stat: nullStat(func(s *Stat) { s.Name = nn })})
 				if rr == nil || rr.M == nil {
 					return
+				}
+				if injected(rr.M, what, before, false) {
+					clunk(f)
+					syncTwin(A, B)
+					continue
 				}
 				// rename(2) is the reference (os.Rename adds a check of its own for directories)
 				eb := syscall.Rename(filepath.Join(B, tgt), filepath.Join(B, filepath.Dir(tgt), nn))
@@ -499,6 +581,13 @@ func c17Exec(x *Ctx) {
 	if !finished && len(x.Res.Viol) == 0 {
 		x.Violate("t0-stalled", "the session did not finish")
 	}
+}
+
+// syncTwin makes the twin equal to the exported tree again after a step that met an injected error
+// (a multi-call request may have been applied partly; what it must not do is judged at that step).
+func syncTwin(A, B string) {
+	os.RemoveAll(B)
+	exec.Command("cp", "-a", A, B).Run()
 }
 
 // nullStat returns a Twstat record that touches nothing, modified by f.
